@@ -55,7 +55,18 @@ def psbtmap_norm(mode: str, b: bytes) -> str:
     return f"ok {hx(out)} rest=_"
 
 
-OPS = {"psbtmap.parse": psbtmap_parse, "psbtmap.norm": psbtmap_norm}
+def psbtin_reser(ver: int):
+    def f(mode: str, b: bytes) -> str:
+        try:
+            out = PsbtIn.parse(b, psbt_version=ver, check_validity=False).serialize(psbt_version=ver, check_validity=False)
+        except Exception as e:  # noqa: BLE001
+            return "err refused" if common.err_class(e) in ("value", "type", "runtime") else "err " + common.err_class(e)
+        return "ok " + hx(out)
+    return f
+
+
+OPS = {"psbtmap.parse": psbtmap_parse, "psbtmap.norm": psbtmap_norm,
+       "psbtin.reser0": psbtin_reser(0), "psbtin.reser2": psbtin_reser(2)}
 
 
 def records_of(b: bytes):
@@ -186,6 +197,68 @@ def gen_records(rng):
     return out
 
 
+def gen_typed_records(rng):
+    """input-map records that exercise every deserializer class of the typed layer, mostly well formed"""
+    from btclib import var_int
+    recs = gen_records(rng)
+    bad = rng.random() < 0.25            # one structural defect somewhere
+
+    def fp_path(n=None):
+        n = rng.choice([0, 1, 3, 5]) if n is None else n
+        return common.rand_bytes(rng, 4) + b"".join(rng.getrandbits(32).to_bytes(4, "little") for _ in range(n))
+
+    r = rng.random
+    if r() < 0.35:
+        for _ in range(rng.choice([1, 2])):
+            recs.append((b"\x06" + rng.choice([b"\x02", b"\x03"]) + common.rand_bytes(rng, 32), fp_path()))
+    if r() < 0.2:
+        recs.append((b"\x08", rng.choice([b"\x00", b"\x01\x00", b"\x02\x01\xaa\x00", b"\x01\x02\xaa\xbb"])))
+    if r() < 0.25:
+        recs.append((b"\x01", rng.choice([0, 1, 5000, 2099999997690000]).to_bytes(8, "little") +
+                     var_bytes.serialize(common.rand_bytes(rng, rng.choice([0, 22, 34])))))
+    if r() < 0.25:
+        recs.append((b"\x15" + bytes([0xC0]) + common.rand_bytes(rng, 32 * rng.choice([1, 2])),
+                     common.rand_bytes(rng, rng.choice([1, 2, 30])) ))
+    if r() < 0.25:
+        n = rng.choice([0, 1, 2])
+        recs.append((b"\x16" + common.rand_bytes(rng, 32),
+                     var_int.serialize(n) + common.rand_bytes(rng, 32 * n) + fp_path()))
+    if r() < 0.2:
+        recs.append((b"\x1a" + b"\x02" + common.rand_bytes(rng, 32), (b"\x03" + common.rand_bytes(rng, 32)) * rng.choice([1, 2, 3])))
+    if r() < 0.2:
+        recs.append((b"\x18", common.rand_bytes(rng, rng.choice([0, 32]))))
+    if r() < 0.3:                         # BIP370 fields (version 2 only)
+        recs.append((b"\x0e", common.rand_bytes(rng, 32)))
+        recs.append((b"\x0f", rng.choice([0, 1, 2**32 - 1]).to_bytes(4, "little")))
+        if r() < 0.5:
+            recs.append((b"\x10", rng.choice([0, 0xFFFFFFFE]).to_bytes(4, "little")))
+        if r() < 0.3:
+            recs.append((b"\x11", rng.choice([0, 500000000, 1700000000]).to_bytes(4, "little")))
+        if r() < 0.3:
+            recs.append((b"\x12", rng.choice([0, 1, 499999999]).to_bytes(4, "little")))
+    if bad and recs:
+        i = rng.randrange(len(recs))
+        k, v = recs[i]
+        how = rng.random()
+        if how < 0.3:
+            recs[i] = (k, v[:-1] if v else b"\x00")          # value one byte short / spurious
+        elif how < 0.5:
+            recs[i] = (k, v + b"\x00")                        # one byte long
+        elif how < 0.7:
+            recs[i] = (k[:1] + b"\x01" + k[1:], v)            # key data where none belongs / longer key
+        elif how < 0.85:
+            recs[i] = (k, b"")                                # empty value
+        else:
+            recs[i] = (k[:1], v)                              # key data removed
+    seen, out = set(), []
+    for k, v in recs:
+        if k not in seen:
+            seen.add(k)
+            out.append((k, v))
+    rng.shuffle(out)
+    return out
+
+
 def mutate_map(recs, rng) -> bytes:
     b = ser_records(recs)
     r = rng.random()
@@ -271,3 +344,22 @@ def run(ctx):
         if ok:
             norm_lines.append(f"psbtmap.norm o {hx(m)}")
     ctx.stream("psbtmap.norm", norm_lines)
+
+    # ---- typed layer against the model on EVERY input map, dropped records included.  One-sided where
+    # the refusal is semantic (Tx.assert_valid, MoneyRange, duplicate key origins …): the model does not
+    # carry those, so a case the model accepts and btclib refuses is counted and left out.
+    pool = list(dict.fromkeys(maps_in[:ctx.n(300, 3000)] + crafted))
+    for _ in range(ctx.n(500, 8000)):
+        pool.append(ser_records(gen_typed_records(rng)))
+    lines = [f"psbtin.reser{v} o {hx(m)}" for m in pool for v in (0, 2)]
+    outs = ctx.model(ctx.harness.EXE, lines)
+    cases = []
+    for i, ln in enumerate(lines):
+        im = OPS[ln.split(" ")[0]]("o", bytes.fromhex(ln.split(" ")[2]) if ln.split(" ")[2] != "_" else b"")
+        if outs is not None and im == "err refused" and outs[i].startswith("ok"):
+            ctx.count("psbtin.reser.class", "semantic refusal (not modelled)")
+            continue
+        ctx.count("psbtin.reser.class", "refused" if im.startswith("err") else
+                  ("kept all" if len(im) - 3 == len(ln.split(" ")[2]) else "normalised (records dropped)"))
+        cases.append((ln, im))
+    ctx.correspond("psbtin.reser", ctx.harness.EXE, cases)
